@@ -1,7 +1,7 @@
 (* Main.v — single entry point of the extracted model: one request tree in, one
    response tree out.  The OCaml driver only parses and prints trees. *)
 From Coq Require Import String List.
-From Prov Require Import Str Sexp Tables Nsm Scope Values Record World Jtree Json JsonSpec Provn ProvnSpec XmlSpec IO IODispatch Dot Xml XmlLabel XmlRec XmlRead XmlReadDoc XmlScope Rdf Rdfq RdfVal Dotg DotLabel Interp.
+From Prov Require Import Str Sexp Tables Nsm Scope Values Record World Jtree Json JsonSpec Provn ProvnSpec XmlSpec IO IODispatch Dot Xml XmlLabel XmlRec XmlRead XmlReadDoc XmlScope Rdf Rdfq RdfVal Dotg DotLabel Interp Alias.
 Import ListNotations.
 Open Scope string_scope.
 
@@ -293,6 +293,41 @@ Definition run (req : sexp) : sexp :=
            | None => A "none"
            end) [SContentStr; SContentBytes; STextStream; SBinaryStream; SPath])
            [DString; DTextStream; DBinaryStream; DPath]) [FJson; FXml; FRdf])
+  (* the object graph (Alias.v): a list of calls; answer: after every call, for every handle, the shape of what it
+     reaches (same-object index, managers, records, bundles, records per container, stray pointers, objects shared
+     with each earlier handle) *)
+  | L (A "alias" :: ops) =>
+      let px_on (x : sexp) : option (option nat) := match x with A "none" => Some None | y => option_map Some (px_nat y) end in
+      let px_aop (x : sexp) : option aop :=
+        match x with
+        | L [A "NewDoc"] => Some ANewDoc
+        | L [A "NewBundle"; i] => option_map ANewBundle (px_nat i)
+        | L [A "AddRecs"; i; s; k] =>
+            match px_nat i, px_on s, px_nat k with Some i', Some s', Some k' => Some (AAddRecs i' s' k') | _, _, _ => None end
+        | L [A "TouchRec"; i; s; r] =>
+            match px_nat i, px_on s, px_nat r with Some i', Some s', Some r' => Some (ATouchRec i' s' r') | _, _, _ => None end
+        | L [A "TouchNs"; i; s] => match px_nat i, px_on s with Some i', Some s' => Some (ATouchNs i' s') | _, _ => None end
+        | L [A "Build"; k0; L ks] => match px_nat k0, px_list px_nat ks with Some a, Some b => Some (ABuild a b) | _, _ => None end
+        | L [A "Unified"; i; k0; L ks] =>
+            match px_nat i, px_nat k0, px_list px_nat ks with Some i', Some a, Some b => Some (AUnified i' a b) | _, _, _ => None end
+        | L [A "Flattened"; i] => option_map AFlattened (px_nat i)
+        | L [A "DocFromRecs"; i; s] => match px_nat i, px_on s with Some i', Some s' => Some (ADocFromRecs i' s') | _, _ => None end
+        | L [A "UpdateBundle"; i; s; j; t] =>
+            match px_nat i, px_on s, px_nat j, px_on t with
+            | Some i', Some s', Some j', Some t' => Some (AUpdateBundle i' s' j' t') | _, _, _, _ => None end
+        | L [A "Update"; i; j; L ms] =>
+            match px_nat i, px_nat j, px_list px_on ms with Some i', Some j', Some m => Some (AUpdate i' j' m) | _, _, _ => None end
+        | L [A "AddBundleDoc"; i; j] => match px_nat i, px_nat j with Some i', Some j' => Some (AAddBundleDoc i' j') | _, _ => None end
+        | _ => None
+        end in
+      let n (k : nat) := A (str_of_nat k) in
+      let sx_shape (h : shape) : sexp :=
+        L [n (sh_same h); n (sh_mgrs h); n (sh_recs h); n (sh_buns h); L (map n (sh_per_bundle h)); n (sh_stray h);
+           L (map n (sh_shared h))] in
+      match px_list px_aop ops with
+      | Some l => L (map (fun shs => L (map sx_shape shs)) (atrace aempty l))
+      | None => A "bad-request"
+      end
   | L [A "destpath"; A name] =>
       match dest_path name with Some p => L [A "some"; A p] | None => L [A "none"] end
   | L [A "provnspec"; A text] =>
